@@ -47,17 +47,27 @@ def indexOfRef (w : List PN) (k : RefKey) : String :=
 def showBlobs (w : List PN) (bs : List Cand) : String :=
   if bs.isEmpty then "-" else ",".intercalate (bs.map (fun c => indexOfRef w c.2))
 
+def showKeys (w : List PN) (bs : List RefKey) : String :=
+  if bs.isEmpty then "-" else ",".intercalate (bs.map (indexOfRef w))
+
 def doQuery (w : List PN) (srt cons lim : String) (cont : Option String) (around : Option String) : String :=
-  let srt? : Option SortBy := if srt == "c" then some .created else if srt == "m" then some .lastMod else none
+  let srt? : Option (SortBy ⊕ USort) :=
+    if srt == "c" then some (.inl .created) else if srt == "m" then some (.inl .lastMod)
+    else if srt == "C" then some (.inr .createdAsc) else if srt == "r" then some (.inr .blobRefAsc) else none
   let cons? : Option Cons := if cons == "all" then some .all else if cons == "a" then some .tagA else if cons == "b" then some .tagB else none
   let lim? := (intArg lim).bind (fun n => if -2147483648 ≤ n ∧ n ≤ 2147483647 then some n else none)
   let cont? : Option Bytes := match cont with | none => some [] | some c => hexArg c
   let around? : Option (Option Ref) := match around with | none => some none | some a => (refArg a).map some
   match srt?, cons?, lim?, cont?, around? with
-  | some s, some c, some l, some ct, some ar =>
+  | some (.inl s), some c, some l, some ct, some ar =>
     match query tbl true w ⟨s, c, l, ct, ar⟩ with
     | none => "err"
     | some r => s!"ok {showBlobs w r.blobs} {toHexString r.cont}"
+  | some (.inr us), some c, some l, some ct, some ar =>
+    match queryUnsorted true w us c l ct ar with
+    | .err => "err"
+    | .panic => "panic"
+    | .ok bs => s!"ok {showKeys w bs} -"
   | _, _, _, _, _ => "bad-op"
 
 def step (w : List PN) (ws : List String) : List PN × String :=
